@@ -1,7 +1,8 @@
 /-
   Model of the bipartition reshape, the rank rule and the Schmidt composition of
   `qclib/entanglement.py` (C09, C07), and of the register / encoder plan of
-  `qclib/state_preparation/lowrank.py::LowRankInitialize._define_initialize` (C07).
+  `qclib/state_preparation/lowrank.py::LowRankInitialize._define_initialize` (C07; the partition is
+  sorted by `_create_quantum_circuit` before the registers are formed).
   Core Lean only; everything is executable (the drivers `Drivers/C09.lean`, `Drivers/C07.lean` run
   these very definitions).
 
@@ -180,16 +181,18 @@ structure Plan where
   encV : String
   deriving Repr
 
-/-- `partition` (as given, natural numbers), `eff` = number of singular values above the
-threshold.  `reg_a = partition[::-1]`, `reg_b = sorted(complement)[::-1]`; the Schmidt
-decomposition itself is taken across `sorted(partition)` (see `sepAxes`). -/
+/-- `partition` (as given, natural numbers, any order), `eff` = number of singular values above
+the threshold.  `_create_quantum_circuit` first replaces the partition by `sorted(partition)`;
+`reg_a = sorted(partition)[::-1]`, `reg_b = sorted(complement)[::-1]`; the Schmidt decomposition is
+taken across the same sorted list (see `sepAxes`). -/
 def lowRankPlan (n : Nat) (partition : List Nat) (lowRank : Int) (eff : Nat)
     (isoScheme uniScheme : String) : Option Plan :=
   match rankRule lowRank eff with
   | none => none
   | some rank =>
-    let regA := partition.reverse
-    let regB := (restAxes n partition).reverse
+    let sorted := isort (fun a b => decide (a ≤ b)) partition
+    let regA := sorted.reverse
+    let regB := (restAxes n sorted).reverse
     let e := toQubits rank
     some { rank := rank, ebits := e, regA := regA, regB := regB, regSv := regB.take e
            cxs := (List.range e).map (fun j => (regB.getD j 0, regA.getD j 0))
